@@ -467,6 +467,9 @@ func (r *Run) c06Remap(sums *Summaries) {
 			if a.Op == "nil" {
 				continue
 			}
+			if r.Mode == "own-lists" && a.Op == "loop" {
+				continue // a value carried around the loop: its sources are the other alternatives
+			}
 			if !isCallTo(a, traitWithId) || len(a.Args) != 2 {
 				return false, fmt.Sprintf("trait of the copy is %s, not a lookup in the duplicate's traits", a)
 			}
